@@ -1151,10 +1151,12 @@ package rib
 //@ ensures[same-instances] dom(result0) == dom(r.niRIB)
 //@ ensures[fresh-copies] forall k in dom(result0) :: result0[k] != nil && fresh(result0[k])
 //@ ensures[wf-copies] (forall k in dom(r.niRIB) :: ribWFk(r.niRIB[k].r)) ==> (forall k in dom(result0) :: ribWFk(result0[k]))
+//@ ensures[mirrors] (forall k in dom(r.niRIB) :: r.niRIB[k].r.Afts != nil) ==> (forall k in dom(result0) :: ribMirror(result0[k], r.niRIB[k].r))
 //@ loop 1 at "range r.niRIB" invariant (forall k in visited :: k in dom(r.niRIB) ==> k in dom(rib) && rib[k] != nil && fresh(rib[k]))
 //@ loop 1 invariant (forall k in dom(rib) :: k in visited && k in dom(r.niRIB)) && rib != nil && fresh(rib)
 //@ loop 1 invariant held(r.nrMu) == 1 && (nolocks(RIBHolder.mu))
 //@ loop 1 invariant (forall k in dom(r.niRIB) :: ribWFk(r.niRIB[k].r)) ==> (forall k in dom(rib) :: ribWFk(rib[k]))
+//@ loop 1 invariant (forall k in dom(r.niRIB) :: r.niRIB[k].r.Afts != nil) ==> (forall k in dom(rib) :: ribMirror(rib[k], r.niRIB[k].r))
 //@ assigns nothing
 //@ props C16 C11:lock C12:safety
 
